@@ -326,6 +326,10 @@ class Server(object):
             self.uploads.append((jid, node, policy))
             if policy == "drop":
                 return
+            if policy == "stored_unanswered":
+                # the server has the keys (and hands them out), the confirmation never reaches the client
+                self.store_keys(jid, node)
+                return
             if policy == "error":
                 self.q(jid, N("iq", {"type": "error", "from": "s.whatsapp.net", "id": node["id"]},
                               [N("error", {"code": "500", "text": "internal-server-error"})]))
